@@ -315,7 +315,7 @@ class FxTr:
     # ---- environment: vars (name -> V), fx (base variable | None, [terms]), known (param -> None | narrowed name),
     #      stale (volatile params an effect may have changed), drawn (parameters already consumed)
     def env0(self):
-        vs = {("self", a): V(f"({self.prefix}{a} s)", ty) for a, ty in self.state}
+        vs = {("self", a): V(f"({self.prefix}{a.lstrip('_')} s)", ty) for a, ty in self.state}
         return {"vars": vs, "fx": (None, []), "known": {}, "stale": set(), "drawn": set()}
 
     @staticmethod
@@ -324,6 +324,7 @@ class FxTr:
                 "stale": set(env["stale"]), "drawn": set(env["drawn"])}
 
     def fresh(self, base):
+        base = base.lstrip("_") or "v"               # self._level -> level1
         self.counters[base] = self.counters.get(base, 0) + 1
         return f"{base}{self.counters[base]}"
 
@@ -545,7 +546,7 @@ class FxTr:
     def final(self, env, ret):
         parts = []
         if self.state:
-            parts.append("{| " + "; ".join(f"{self.prefix}{a} := {env['vars'][('self', a)].term}" for a, _ in self.state) + " |}")
+            parts.append("{| " + "; ".join(f"{self.prefix}{a.lstrip('_')} := {env['vars'][('self', a)].term}" for a, _ in self.state) + " |}")
         parts.append(self.fx_term(env["fx"]))
         if self.spec.ret == "bool":
             parts.append(ret)
@@ -750,7 +751,7 @@ def gen_module(title, record, prefix, state, effect_type, constructors, specs):
     and one definition per FnSpec"""
     out = [HEADER.rstrip("\n"), "From Coq Require Import List.", "Import ListNotations.", f"(* {title} *)", ""]
     if state:
-        out.append(f"Record {record} := {{ " + "; ".join(f"{prefix}{a} : {COQ_TY[ty]}" for a, ty in state) + " }.")
+        out.append(f"Record {record} := {{ " + "; ".join(f"{prefix}{a.lstrip('_')} : {COQ_TY[ty]}" for a, ty in state) + " }.")
     out.append(f"Inductive {effect_type} :=\n" + "\n".join(f"| {c} {args}".rstrip() for c, args in constructors) + ".")
     out.append("")
     for sp in specs:
